@@ -24,7 +24,7 @@ From IastRw Require Import Sem P_Sem.
 (** For every world -- every way of answering [+], property reads and calls, and every way the user
     variables may change after each interaction -- every set of instrumented method names, and every
     source expression built from string literals, variables, [+], calls, method calls with no or one
-    argument and parentheses:
+    argument, compound assignments [x += e] and [o.k += e], and parentheses:
     the rewritten expression yields the same outcome (value or exception) and the same history of
     interactions as the source, from any counter value and any temporary store, and it writes only
     temporaries in the range it allocated.  ([rw] is the function the check ties to the code: SemTie.v.) *)
@@ -64,5 +64,9 @@ Example C01_core_example :
     Hoist2 0 (Var "s") 1 (Get (Tmp 0) "concat")
            (Hook (CallT1 (Tmp 1) (Tmp 0) (Lit (VStr "x"))) [Tmp 1; Tmp 0; Lit (VStr "x")]) /\
   fst (rw all all (MCall0 (Lit (VStr "s")) "trim") 0) =
-    Hoist1 0 (Get (Lit (VStr "s")) "trim") (Hook (CallT0 (Tmp 0) (Lit (VStr "s"))) [Tmp 0; Lit (VStr "s")]).
+    Hoist1 0 (Get (Lit (VStr "s")) "trim") (Hook (CallT0 (Tmp 0) (Lit (VStr "s"))) [Tmp 0; Lit (VStr "s")]) /\
+  (* o().p += s : the object is evaluated once *)
+  fst (rw all all (AddAsgM (CallE (Var "o") (Var "z")) "p" (Var "s")) 0) =
+    Hoist1 0 (CallE (Var "o") (Var "z"))
+      (AsgM (Tmp 0) "p" (Hoist1 1 (Get (Tmp 0) "p") (Hook (Add (Tmp 1) (Var "s")) [Tmp 1; Var "s"]))).
 Proof. repeat split; reflexivity. Qed.
